@@ -43,6 +43,7 @@ Section Spec.
   Inductive decision :=
   | DSame                 (* the module of this path, already loaded *)
   | DRaise (e : error)
+  | DFailedBefore         (* the module's body failed earlier: an ImportError, message unspecified *)
   | DRun (b : Body).      (* first import: run the body, then `spec_finish` *)
 
   Definition startup_globals : list (name * svalue) := map (fun b => (b, SBuiltin b)) startup_names.
@@ -56,7 +57,7 @@ Section Spec.
       match s_status m with
       | Loaded => (st, DSame)
       | Loading => (st, DRaise (mkerr KImport [cyc_msg p]))
-      | Failed => (st, DRaise (mkerr KImport [any_msg]))
+      | Failed => (st, DFailedBefore)
       end
     | None =>
       let st1 := mksstate (s_mods st) (p :: s_loads st) (s_ran st) in
@@ -91,4 +92,4 @@ Section Spec.
     mksstate [(main_path, mksmod Loading startup_globals)] [] [].
 End Spec.
 
-Arguments DSame {Body}. Arguments DRaise {Body}. Arguments DRun {Body}.
+Arguments DSame {Body}. Arguments DRaise {Body}. Arguments DFailedBefore {Body}. Arguments DRun {Body}.
